@@ -245,6 +245,12 @@ func (st *semState) expect(p string, mode string) expectation {
 		if br.err != nil {
 			e.exit = 5
 			e.errText = errText(br.err)
+			if strings.Contains(e.errText, "Error() panics") {
+				// the error value itself crashes when formatted (on either side): a crash
+				// defect outside this property (reported separately), no verdict here
+				e.skip = "the program's runtime error cannot be formatted: " + e.errText
+				return e
+			}
 		}
 	}
 	return e
